@@ -203,11 +203,13 @@ class SymGen:
         if x is None:
             return
         xs = self.shape[x]
+        if fam in ("binop", "where", "cmp") and self.dtype[x] == "bool":
+            return      # arithmetic on bool values is C01's known bool-saturation finding
         if fam in ("binop", "cmp", "where"):
             # partner: same shape, a broadcastable suffix with unit axes, or a scalar
             r = self.rng.random()
             if r < 0.5:
-                y = self.pick(lambda i: self.shape[i] == xs)
+                y = self.pick(lambda i: self.shape[i] == xs and self.dtype[i] != "bool")
                 if y is None or self.rng.random() < 0.3:
                     y = self.new_input(list(xs), self.dtype[x])
                 ysh = xs
